@@ -200,7 +200,8 @@ def gen_machine_program(r: Rng, feat: Dict[str, bool], size: int) -> Dict:
                ("cardrw", 4 if feat.get("card_rw") and not in_loop else 0),
                ("xram", 5 if feat.get("xram") else 0),
                ("crit", 3 if feat.get("imr_writes") and feat.get("isr_writes") and depth == 0 and not in_loop else 0),
-               ("bare_reti", 2 if feat.get("bare_reti") and depth == 0 and not in_loop else 0)]
+               ("bare_reti", 2 if feat.get("bare_reti") and depth == 0 and not in_loop else 0),
+               ("selfmod", 3 if feat.get("selfmod") and depth == 0 and not in_loop else 0)]
         kind = r.weighted([p for p in pal if p[1] > 0])
         if kind == "nop":
             a.op("NOP")
@@ -296,6 +297,14 @@ def gen_machine_program(r: Rng, feat: Dict[str, bool], size: int) -> Dict:
             at = a.op("RETI", tag="BARE_RETI")
             bare[str(at)] = [cont, f_v, imr_v, S_INIT]
             assert a.pc == cont
+        elif kind == "selfmod":
+            # code that patches itself (a RAM-resident routine adjusting one of its own instructions): the site is executed,
+            # its opcode byte is rewritten further down, and the main loop comes back to it on the next lap
+            site = a.op("NOP", tag="SM:site")
+            for _ in range(r.range(0, 2)):
+                a.op("NOP")
+            a.op("MV_A", r.choice([0x97, 0x9F, 0x97, 0x00, 0xEE]))      # SC / RC / NOP / SWAP A
+            a.lmn("ST_A", site, tag="SM:patch")
         elif kind == "crit":
             # a critical section of a polling main program: interrupts off, time passes (requests pile up),
             # one status bit is acknowledged by hand, interrupts on again
